@@ -4,57 +4,152 @@ package interp
 
 import (
 	"fmt"
+	"reflect"
 	"sort"
 	"strings"
+	"unsafe"
 )
 
-// VerifDump renders the persistent, property-relevant state of the
-// interpreter canonically (maps sorted; caches and buffer capacities left
-// out). Read-only. Used for explicit-state de-duplication in C14.
+// verifDumpSkip: caches, scratch buffers and the shared Program are not part
+// of the persistent per-interpreter state the reuse property talks about.
+// (A field that is renamed simply stops being skipped: the dump gets finer,
+// never wrong.)
+var verifDumpSkip = map[string]bool{
+	"program": true, "functions": true, "nums": true, "strs": true, "regexes": true,
+	"regexCache": true, "formatCache": true, "splitBuffer": true, "inputBuffer": true,
+	"stack": true, "frame": true, "scalarIndexes": true, "arrayIndexes": true, "random": true,
+	"ctxDone": true,
+}
+
+// VerifDump renders the persistent state of the interpreter canonically (maps
+// sorted, pointers by nil-ness or by String()). It walks the struct by
+// reflection so that it keeps compiling when fields are added or renamed.
+// Read-only. Used for explicit-state de-duplication in C14.
 func (p *Interpreter) VerifDump() string {
-	q := p.interp
 	var b strings.Builder
-	w := func(format string, a ...any) { fmt.Fprintf(&b, format, a...) }
-	w("globals:")
-	for i, g := range q.globals {
-		w(" %d=%s", i, g.String())
-	}
-	w("\narrays(%d):", len(q.arrays))
-	for i, a := range q.arrays {
-		keys := make([]string, 0, len(a))
-		for k := range a {
-			keys = append(keys, k)
+	v := reflect.ValueOf(p.interp).Elem()
+	t := v.Type()
+	for i := 0; i < t.NumField(); i++ {
+		name := t.Field(i).Name
+		if verifDumpSkip[name] {
+			continue
 		}
-		sort.Strings(keys)
-		w(" %d{", i)
-		for _, k := range keys {
-			w("%q:%s,", k, a[k].String())
-		}
-		w("}")
+		b.WriteString(name)
+		b.WriteByte('=')
+		verifDumpValue(&b, v.Field(i), 0)
+		b.WriteByte('\n')
 	}
-	w("\nsp=%d callDepth=%d localArrays=%d frame=%d", q.sp, q.callDepth, len(q.localArrays), len(q.frame))
-	w("\nrecord: line=%q trueStr=%v haveFields=%v fields=%q nf=%s reparseCSV=%v", q.line, q.lineIsTrueStr, q.haveFields, q.fields, q.numFields.String(), q.reparseCSV)
-	w("\nnr=%s fnr=%s filename=%s argc=%s", q.lineNum.String(), q.fileLineNum.String(), q.filename.String(), q.argc.String())
-	w("\nfieldNames=%q fieldIndexes=%d", q.fieldNames, len(q.fieldIndexes))
-	w("\nspecials: CONVFMT=%q OFMT=%q FS=%q RS=%q RT=%q OFS=%q ORS=%q SUBSEP=%q RSTART=%s RLENGTH=%s savedFS=%q", q.convertFormat, q.outputFormat, q.fieldSep, q.recordSep,
-		q.recordTerminator, q.outputFieldSep, q.outputRecordSep, q.subscriptSep, q.matchStart.String(), q.matchLength.String(), q.savedFieldSep)
-	w("\nmodes: in=%d %+v out=%d %+v chars=%v crlf=%v", q.inputMode, q.csvInputConfig, q.outputMode, q.csvOutputConfig, q.chars, q.newlineOutputCRLF)
-	w("\nstreams: in=%d out=%d scanners=%d scanner=%v input=%v hadFiles=%v filenameIndex=%d", len(q.inputStreams), len(q.outputStreams), len(q.scanners), q.scanner != nil, q.input != nil, q.hadFiles, q.filenameIndex)
-	w("\nflags: noExec=%v noFileWrites=%v noFileReads=%v noArgVars=%v", q.noExec, q.noFileWrites, q.noFileReads, q.noArgVars)
-	w("\nexit=%d randSeed=%v checkCtx=%v", q.exitStatus, q.randSeed, q.checkCtx)
-	// C14 additions: remaining persistent fields that are not pure caches.
-	re := func(r interface{ String() string }, isNil bool) string {
-		if isNil {
-			return "<nil>"
-		}
-		return r.String()
-	}
-	w("\nregex: fs=%q rs=%q savedfs=%q", re(q.fieldSepRegex, q.fieldSepRegex == nil), re(q.recordSepRegex, q.recordSepRegex == nil), re(q.savedFieldSepRegex, q.savedFieldSepRegex == nil))
-	w("\nfieldsIsTrueStr=%v shell=%q natives=%d openFile=%v", q.fieldsIsTrueStr, q.shellCommand, len(q.nativeFuncs), q.openFile != nil)
-	csvBuffered := -1
-	if q.csvOutput != nil {
-		csvBuffered = q.csvOutput.Buffered()
-	}
-	w("\ncsvOutputBuffered=%d csvJoinBuf=%d ctxOps=%d ctxCancelled=%v", csvBuffered, q.csvJoinFieldsBuf.Len(), q.ctxOps, q.ctx != nil && q.ctx.Err() != nil)
 	return b.String()
+}
+
+func verifAccessible(v reflect.Value) reflect.Value {
+	if v.CanInterface() || !v.CanAddr() {
+		return v
+	}
+	return reflect.NewAt(v.Type(), unsafe.Pointer(v.UnsafeAddr())).Elem()
+}
+
+func verifDumpValue(b *strings.Builder, v reflect.Value, depth int) {
+	if depth > 4 {
+		b.WriteString("…")
+		return
+	}
+	switch v.Kind() {
+	case reflect.Bool:
+		fmt.Fprintf(b, "%v", v.Bool())
+	case reflect.Int, reflect.Int8, reflect.Int16, reflect.Int32, reflect.Int64:
+		fmt.Fprintf(b, "%d", v.Int())
+	case reflect.Uint, reflect.Uint8, reflect.Uint16, reflect.Uint32, reflect.Uint64, reflect.Uintptr:
+		fmt.Fprintf(b, "%d", v.Uint())
+	case reflect.Float32, reflect.Float64:
+		fmt.Fprintf(b, "%v", v.Float())
+	case reflect.String:
+		fmt.Fprintf(b, "%q", v.String())
+	case reflect.Slice, reflect.Array:
+		if v.Kind() == reflect.Slice && v.IsNil() {
+			b.WriteString("nil")
+			return
+		}
+		if v.Type().Elem().Kind() == reflect.Uint8 {
+			fmt.Fprintf(b, "bytes(%d)", v.Len())
+			return
+		}
+		fmt.Fprintf(b, "[%d:", v.Len())
+		for i := 0; i < v.Len() && i < 200; i++ {
+			verifDumpValue(b, v.Index(i), depth+1)
+			b.WriteByte(' ')
+		}
+		b.WriteByte(']')
+	case reflect.Map:
+		if v.IsNil() {
+			b.WriteString("nil")
+			return
+		}
+		type kv struct{ k, v string }
+		var items []kv
+		iter := v.MapRange()
+		for iter.Next() {
+			var kb, vb strings.Builder
+			verifDumpValue(&kb, iter.Key(), depth+1)
+			verifDumpValue(&vb, iter.Value(), depth+1)
+			items = append(items, kv{kb.String(), vb.String()})
+		}
+		sort.Slice(items, func(i, j int) bool { return items[i].k < items[j].k })
+		fmt.Fprintf(b, "map(%d){", len(items))
+		for _, it := range items {
+			b.WriteString(it.k + ":" + it.v + ",")
+		}
+		b.WriteByte('}')
+	case reflect.Struct:
+		av := verifAccessible(v)
+		if av.CanInterface() {
+			if buf, ok := av.Addr().Interface().(interface{ Len() int }); ok && v.Type().String() == "bytes.Buffer" {
+				fmt.Fprintf(b, "buffer(%d)", buf.Len())
+				return
+			}
+		}
+		b.WriteByte('{')
+		for i := 0; i < v.NumField(); i++ {
+			b.WriteString(v.Type().Field(i).Name + ":")
+			verifDumpValue(b, v.Field(i), depth+1)
+			b.WriteByte(' ')
+		}
+		b.WriteByte('}')
+	case reflect.Ptr:
+		if v.IsNil() {
+			b.WriteString("nil")
+			return
+		}
+		av := verifAccessible(v)
+		if av.CanInterface() {
+			switch x := av.Interface().(type) {
+			case interface{ Buffered() int }:
+				fmt.Fprintf(b, "&buffered(%d)", x.Buffered())
+				return
+			case fmt.Stringer:
+				if strings.Contains(v.Type().String(), "regexp") {
+					fmt.Fprintf(b, "&%q", x.String())
+					return
+				}
+			}
+		}
+		b.WriteString("&" + v.Type().Elem().String())
+	case reflect.Interface:
+		if v.IsNil() {
+			b.WriteString("nil")
+			return
+		}
+		av := verifAccessible(v)
+		if av.CanInterface() {
+			if c, ok := av.Interface().(interface{ Err() error }); ok {
+				fmt.Fprintf(b, "ctx(err=%v)", c.Err() != nil)
+				return
+			}
+		}
+		b.WriteString("iface:" + v.Elem().Type().String())
+	case reflect.Func, reflect.Chan, reflect.UnsafePointer:
+		fmt.Fprintf(b, "%s(nil=%v)", v.Kind(), v.IsNil())
+	default:
+		b.WriteString("?" + v.Kind().String())
+	}
 }
